@@ -35,6 +35,7 @@ func genCase(t *rapid.T) Case {
 		}
 	}
 	c.Other = c.Extended && rapid.IntRange(0, 2).Draw(t, "other-portal") == 0
+	c.TLS = rapid.IntRange(0, 7).Draw(t, "inside-tls") == 3
 	return c
 }
 
